@@ -489,7 +489,7 @@ Proof.
     change (u64 (0 + 1)) with 1. change (u64 (1 + 1)) with 2. change (2 <? 2) with false. cbn [bind].
     exists (xs (xs (xs (xs x (a / 4)) (a mod 4 * 16)) 0) 0), (u64 (u64 (u64 (u64 (count + 1) + 1) + 1) + 1)). split; [|unfold u64; lia].
     assert (HX := xs4_low x (a / 4) (a mod 4 * 16) 0 0 A0 A1 ltac:(lia) ltac:(lia)).
-    destruct (out_bytes _ a 0 0 Ha ltac:(unfold byte; lia) ltac:(unfold byte; lia)) as (B1 & B2 & B3).
+    destruct (out_bytes (xs (xs (xs (xs x (a / 4)) (a mod 4 * 16)) 0) 0) a 0 0 Ha ltac:(unfold byte; lia) ltac:(unfold byte; lia)) as (B1 & B2 & B3).
     { rewrite HX. unfold byte in *. lia. }
     rewrite B1. change (Z.to_nat 2) with 2%nat. unfold skipn. reflexivity.
   - (* two bytes: three digits, one pad *)
@@ -506,7 +506,7 @@ Proof.
     change (u64 (0 + 1)) with 1. change (2 <? 1) with false. cbn [bind].
     exists (xs (xs (xs (xs x (a / 4)) (a mod 4 * 16 + b / 16)) (b mod 16 * 4)) 0), (u64 (u64 (u64 (u64 (count + 1) + 1) + 1) + 1)). split; [|unfold u64; lia].
     assert (HX := xs4_low x (a / 4) (a mod 4 * 16 + b / 16) (b mod 16 * 4) 0 A0 A1 A2 ltac:(lia)).
-    destruct (out_bytes _ a b 0 Ha Hb ltac:(unfold byte; lia)) as (B1 & B2 & B3).
+    destruct (out_bytes (xs (xs (xs (xs x (a / 4)) (a mod 4 * 16 + b / 16)) (b mod 16 * 4)) 0) a b 0 Ha Hb ltac:(unfold byte; lia)) as (B1 & B2 & B3).
     { rewrite HX. unfold byte in *. lia. }
     rewrite B1, B2. change (Z.to_nat 1) with 1%nat. unfold skipn. reflexivity.
   - (* a full group *)
@@ -524,7 +524,7 @@ Proof.
     rewrite d64_digit by assumption. replace ((u64 (u64 (u64 (count + 1) + 1) + 1) + 1) mod 4 =? 0) with true by (unfold u64; lia).
     change (2 <? 0) with false. change (Z.to_nat 0) with 0%nat. unfold skipn. cbn [bind].
     assert (HX := xs4_low x (a / 4) (a mod 4 * 16 + b / 16) (b mod 16 * 4 + c / 64) (c mod 64) A0 A1 A2 A3).
-    destruct (out_bytes _ a b c Ha Hb Hcc) as (B1 & B2 & B3).
+    destruct (out_bytes (xs (xs (xs (xs x (a / 4)) (a mod 4 * 16 + b / 16)) (b mod 16 * 4 + c / 64)) (c mod 64)) a b c Ha Hb Hcc) as (B1 & B2 & B3).
     { rewrite HX. unfold byte in *. lia. }
     rewrite B1, B2, B3.
     destruct (IH r ltac:(cbn [length] in Hn; lia) Hr
@@ -544,3 +544,130 @@ Proof.
   unfold dfold in E. rewrite E. rewrite app_nil_r, rev_involutive. reflexivity.
 Qed.
 End B64rt.
+
+(* ------------------------------------------------------------------------------------------------ Base64 encoder: model on any split = flat encoder *)
+
+Section B64enc.
+Local Ltac Zify.zify_post_hook ::= Z.div_mod_to_equations.
+
+Definition chunk64 (ph last curr : Z) : list Z :=
+  if ph =? 0 then [e64 (Z.land (Z.shiftr curr 2) 63)]
+  else if ph =? 1 then [e64 (Z.land (Z.lor (Z.shiftl last 4) (Z.shiftr curr 4)) 63)]
+  else [e64 (Z.land (Z.lor (Z.shiftl last 2) (Z.shiftr curr 6)) 63); e64 (Z.land curr 63)].
+
+(* the byte loop of _dispatch_transform_to_base64 on a flat string: prev = previous byte, count = bytes so far *)
+Fixpoint encf (prev count : Z) (l : list Z) : list Z :=
+  match l with
+  | [] => []
+  | c :: l' => chunk64 (count mod 3) prev c ++ encf c (count + 1) l'
+  end.
+
+Definition tail64 (ph lastb : Z) : list Z :=
+  if ph =? 0 then [] else if ph =? 1 then [e64 (Z.land (Z.shiftl lastb 4) 48); PAD; PAD]
+  else [e64 (Z.land (Z.shiftl lastb 2) 60); PAD].
+
+Lemma Zlength_rev : forall (l : list Z), Zlength (rev l) = Zlength l.
+Proof. intros. rewrite !Zlength_correct, rev_length. reflexivity. Qed.
+
+Lemma last_cons_default : forall (l : list Z) a d, last (a :: l) d = last l a.
+Proof.
+  induction l as [|x l IH]; intros; [reflexivity|].
+  change (last (a :: x :: l) d) with (last (x :: l) d). rewrite (IH x d), (IH x a). reflexivity.
+Qed.
+
+Lemma encf_app : forall l1 l2 prev count,
+  encf prev count (l1 ++ l2) = encf prev count l1 ++ encf (last l1 prev) (count + Zlength l1) l2.
+Proof.
+  induction l1 as [|a l1 IH]; intros; cbn [app encf].
+  - rewrite Zlength_nil, Z.add_0_r. reflexivity.
+  - rewrite IH, <- app_assoc, Zlength_cons. f_equal.
+    rewrite last_cons_default.
+    replace (count + Z.succ (Zlength l1)) with (count + 1 + Zlength l1) by lia. reflexivity.
+Qed.
+
+Lemma land63 : forall x, 0 <= Z.land x 63 < 64.
+Proof. intros. change 63 with (2 ^ 6 - 1). rewrite land_low by lia. lia. Qed.
+
+Lemma rdo_e64 : forall site k, 0 <= k < 64 -> rdo site base64_encode_table k = Ok (e64 k).
+Proof.
+  intros site k Hk. unfold rdo, rd, e64. destruct (Z.ltb_spec k 0); [lia|].
+  rewrite (nth_error_nth' base64_encode_table 0); [reflexivity|]. change (length base64_encode_table) with 64%nat. lia.
+Qed.
+
+Lemma tput64 : forall site cap n l k, 0 <= k < 64 -> 0 <= n < cap ->
+  tput site base64_encode_table cap (n, l) k = Ok (n + 1, e64 k :: l).
+Proof.
+  intros. unfold tput. rewrite rdo_e64 by assumption. cbn [bind]. unfold wr.
+  replace ((0 <=? n) && (n <? cap)) with true by lia. reflexivity.
+Qed.
+
+Lemma last_app_ne : forall (l1 l2 : list Z) d, l2 <> [] -> last (l1 ++ l2) d = last l2 d.
+Proof.
+  intros l1 l2 d H. destruct (exists_last H) as [p [a ->]]. rewrite app_assoc, !last_last. reflexivity.
+Qed.
+
+Lemma chunk64_len : forall ph last curr, 1 <= Zlength (chunk64 ph last curr) <= 2.
+Proof. intros. unfold chunk64. destruct (ph =? 0); [|destruct (ph =? 1)]; cbn; lia. Qed.
+
+(* the loop over one region; prev0 is what the look-back map of offset-1 yields *)
+Lemma b64e_fold : forall d cap r offset prev0,
+  0 <= offset -> (offset = 0 \/ get_last 959 d r offset 0 = Ok prev0) ->
+  forall suf r1 count n l prev,
+  r = r1 ++ suf -> count = offset + Zlength r1 -> count + Zlength suf < 2 ^ 63 ->
+  prev = match r1 with [] => prev0 | _ => last r1 0 end ->
+  n = Zlength l -> n + Zlength (encf prev count suf) <= cap ->
+  foldi (b64e_char d cap r offset) (Zlength r1) suf (count, (n, l)) =
+    Ok (count + Zlength suf, (n + Zlength (encf prev count suf), rev (encf prev count suf) ++ l)).
+Proof.
+  intros d cap r offset prev0 Hoff Hprev0.
+  induction suf as [|c suf IH]; intros r1 count n l prev Hr Hcount Hbound Hprev Hn Hcap.
+  - cbn [foldi encf rev app]. rewrite Zlength_nil, !Z.add_0_r. reflexivity.
+  - cbn [foldi]. pose proof (Zlength_nonneg r1) as Hr1. pose proof (Zlength_nonneg suf) as Hsuf.
+    pose proof (Zlength_nonneg l) as Hl. rewrite Zlength_cons in Hbound.
+    cbn [encf] in Hcap. rewrite Zlength_app in Hcap.
+    pose proof (Zlength_nonneg (encf c (count + 1) suf)) as Hrest.
+    pose proof (chunk64_len (count mod 3) prev c) as Hch.
+    assert (Hlast : count mod 3 <> 0 -> get_last 959 d r offset (Zlength r1) = Ok prev).
+    { intros Hph. destruct r1 as [|z r1'].
+      - rewrite Zlength_nil in *. destruct Hprev0 as [H0|H0]; [exfalso; apply Hph; rewrite Hcount, H0; reflexivity|].
+        subst prev. exact H0.
+      - assert (Hpos : 0 < Zlength (z :: r1')) by (rewrite Zlength_cons; pose proof (Zlength_nonneg r1'); lia).
+        unfold get_last. replace (Zlength (z :: r1') =? 0) with false by lia.
+        unfold rdo. subst r. rewrite rd_app_l by lia. rewrite rd_last by discriminate. subst prev. reflexivity. }
+    assert (Hstep : b64e_char d cap r offset (Zlength r1) c (count, (n, l)) =
+                    Ok (count + 1, (n + Zlength (chunk64 (count mod 3) prev c), rev (chunk64 (count mod 3) prev c) ++ l))).
+    { unfold b64e_char. cbv zeta.
+      destruct (Z.eqb_spec (count mod 3) 0) as [E0|E0].
+      - assert (Hc1 : chunk64 (count mod 3) prev c = [e64 (Z.land (Z.shiftr c 2) 63)]).
+        { unfold chunk64. destruct (Z.eqb_spec (count mod 3) 0); [reflexivity|contradiction]. }
+        rewrite Hc1 in *. change (Zlength [e64 (Z.land (Z.shiftr c 2) 63)]) with 1 in *.
+        cbn [bind]. rewrite tput64; [|apply land63|lia]. cbn [bind]. rewrite u64_id by lia. reflexivity.
+      - rewrite (Hlast E0). cbn [bind].
+        destruct (Z.eqb_spec (count mod 3) 1) as [E1|E1].
+        + assert (Hc1 : chunk64 (count mod 3) prev c = [e64 (Z.land (Z.lor (Z.shiftl prev 4) (Z.shiftr c 4)) 63)]).
+          { unfold chunk64. destruct (Z.eqb_spec (count mod 3) 0); [contradiction|].
+            destruct (Z.eqb_spec (count mod 3) 1); [reflexivity|contradiction]. }
+          rewrite Hc1 in *. change (Zlength [e64 (Z.land (Z.lor (Z.shiftl prev 4) (Z.shiftr c 4)) 63)]) with 1 in *.
+          rewrite tput64; [|apply land63|lia]. cbn [bind]. rewrite u64_id by lia. reflexivity.
+        + assert (Hc1 : chunk64 (count mod 3) prev c =
+                        [e64 (Z.land (Z.lor (Z.shiftl prev 2) (Z.shiftr c 6)) 63); e64 (Z.land c 63)]).
+          { unfold chunk64. destruct (Z.eqb_spec (count mod 3) 0); [contradiction|].
+            destruct (Z.eqb_spec (count mod 3) 1); [contradiction|reflexivity]. }
+          rewrite Hc1 in *.
+          change (Zlength [e64 (Z.land (Z.lor (Z.shiftl prev 2) (Z.shiftr c 6)) 63); e64 (Z.land c 63)]) with 2 in *.
+          rewrite tput64; [|apply land63|lia]. cbn [bind].
+          rewrite tput64; [|apply land63|lia]. cbn [bind]. rewrite u64_id by lia.
+          cbn [rev app]. replace (n + 1 + 1) with (n + 2) by lia. reflexivity. }
+    rewrite Hstep. cbn [bind].
+    specialize (IH (r1 ++ [c]) (count + 1) (n + Zlength (chunk64 (count mod 3) prev c))
+                   (rev (chunk64 (count mod 3) prev c) ++ l) c).
+    rewrite Zlength_snoc in IH. rewrite IH.
+    + cbn [encf]. rewrite Zlength_cons, Zlength_app, rev_app_distr, <- app_assoc. f_equal. f_equal; [lia|]. f_equal. lia.
+    + subst r. rewrite <- app_assoc. reflexivity.
+    + lia.
+    + lia.
+    + rewrite last_last. destruct r1; reflexivity.
+    + rewrite Zlength_app, Zlength_rev. lia.
+    + lia.
+Qed.
+End B64enc.
